@@ -27,7 +27,7 @@ EXPLANATION = ('Decides for all inputs that enabling glam-assert never changes a
                'actually asserted over the function\'s operands, that is_normalized uses one tolerance everywhere, and that rotation producers and internally computed axes meet the '
                'normalisation preconditions of their consumers exactly in real arithmetic.  Whether glam\'s own outputs numerically satisfy the '
                '2e-4 tolerance along operation chains depends on accumulated rounding and is not decided.')
-LEVEL_NOTE = 'Decides "assertions never change results" and the presence/operands of documented assertions; not numeric satisfaction of tolerances. Trusted: rustc MIR, intrinsic table.'
+LEVEL_NOTE = 'Decides "assertions never change results", the presence/operands of documented assertions and that producers / internal callers meet the preconditions exactly in real arithmetic; not rounding accumulation against the tolerances. Trusted: rustc MIR, intrinsic table.'
 
 PAIRS_QUICK = [('sse2', 'assert')]
 POST_QUICK = ['sse2']
